@@ -121,14 +121,20 @@ s_dtype64 = st.sampled_from(A.DTYPES64)
 
 @st.composite
 def s_dims(draw, min_n=1, max_n=5, vals=(1, 2, 2, 3, 3, 4), cap=1024, need_nontrivial=True):
-    n = draw(st.integers(min_n, max_n))
+    n = draw(st.sampled_from([k for k in (1, 2, 3, 3, 4, 4, 5, 5) if min_n <= k <= max_n]))
     dims = []
     for _ in range(n):
-        ok = [v for v in vals if prod(dims) * v <= cap]
+        ok = [v for v in vals if prod(dims) * v <= cap] or [1]
         dims.append(draw(st.sampled_from(ok)))
     if need_nontrivial and prod(dims) == 1:
         dims[draw(st.integers(0, n - 1))] = draw(st.sampled_from([2, 3]))
     return dims
+
+
+def s_size(draw, n, empty=False):
+    """Size of an index subset of range(n): proper subsets preferred, everything / one / nothing still reachable."""
+    opts = ([0] if empty else []) + [1] + list(range(2, n)) * 3 + [n]
+    return draw(st.sampled_from([o for o in opts if o <= n]))
 
 
 # ---------------------------------------------------------------------------
@@ -149,44 +155,61 @@ def enum_kron_grid(tier):
                        "dtype": "complex128" if (seed >> 3) % 2 else "float64"}
 
 
-def grid_ops(case):
-    ops_d = [A.make_array(case["seed"] + 7 * i, "gauss", (d, c), case["dtype"])
-             for i, (d, c) in enumerate(zip(case["dims"], case["cols"]))]
+def bsr_possible(fmts):
+    """kron builds a bsr matrix when an operand is bsr or a sparse block meets a dense one."""
+    sparse = [f for f in fmts if is_sparse_fmt(f)]
+    return "bsr" in fmts or (bool(sparse) and len(sparse) < len(fmts))
+
+
+def grid_formats(case):
     kind = case["kind"]
     if kind == "mixed":
         fm = ["dense", "csr", "coo", "csc", "bsr"]
-        ops = [store(o, fm[(i + case["seed"]) % 5]) for i, o in enumerate(ops_d)]
-    else:
-        ops = [store(o, kind) for o in ops_d]
-    return ops_d, ops
+        return [fm[(i + case["seed"]) % 5] for i in range(len(case["dims"]))]
+    return [kind] * len(case["dims"])
 
 
 def run_kron_grid(case):
     qu = Q()
-    ops_d, ops = grid_ops(case)
+    ops_d = [A.make_array(case["seed"] + 7 * i, "gauss", (d, c), case["dtype"])
+             for i, (d, c) in enumerate(zip(case["dims"], case["cols"]))]
+    fmts = grid_formats(case)
+    ops = [store(o, f) for o, f in zip(ops_d, fmts)]
     ref = kron_all(ops_d)
     D = ref.shape[0]
     mag = float(np.linalg.norm(ref))
+    amax = float(np.max(np.abs(ref)))
     kind = case["kind"]
     own_full = dense(qu.kron(*ops))
     e = check_close(own_full, ref, 1e-14, mag, kind=kind, clause="full")
-    n = nt = 0
-    want_sparse = kind != "dense"
+    n = nt = unserved = 0
+    want_sparse = any(is_sparse_fmt(f) for f in fmts)
+    may_bsr = bsr_possible(fmts)
     for ri in range(D):
         for rf in range(ri + 1, D + 1):
-            X = qu.kron(*ops, ownership=(ri, rf))
+            try:
+                X = qu.kron(*ops, ownership=(ri, rf))
+            except NotImplementedError:
+                if may_bsr:
+                    unserved += 1  # reported once per chunk, after every other cell has been checked
+                    continue
+                raise
             if sp.issparse(X) != want_sparse:
                 raise Violation("container", kind=kind, own=[ri, rf], got=type(X).__name__)
             Xd = dense(X)
             if Xd.shape != (rf - ri, ref.shape[1]):
                 raise Violation("own-shape", kind=kind, own=[ri, rf], got=list(Xd.shape), want=[rf - ri, ref.shape[1]])
-            # the statement: exactly the rows of the full object (same products, same order)
-            if not np.array_equal(Xd, own_full[ri:rf]):
-                raise Violation("own-rows", kind=kind, own=[ri, rf], D=D,
-                                err=float(np.max(np.abs(Xd - own_full[ri:rf]))))
+            # the statement: exactly the rows of the full object.  Each entry is one product of the same
+            # factors, so only the last-bit rounding of (complex) products may differ.
+            d = float(np.max(np.abs(Xd - own_full[ri:rf])))
+            if not d <= 1e-14 * amax:
+                raise Violation("own-rows", kind=kind, own=[ri, rf], D=D, err=d / max(amax, 1e-300))
+            e = max(e, d / max(amax, 1e-300))
             n += 1
-            if (ri, rf) != (0, D) and sum(d > 1 for d in case["dims"]) >= 2:
+            if (ri, rf) != (0, D) and sum(d_ > 1 for d_ in case["dims"]) >= 2:
                 nt += 1
+    if unserved:
+        raise Violation("format-unsupported", entry="ownership-slice-bsr", kind=kind)
     return {"nt": nt > 0, "n": n, "nt_n": nt, "cls": ["kind=" + kind, "nops=%d" % len(ops)], "err": e}
 
 
@@ -266,6 +289,10 @@ def run_kron_formats(case):
                 # documented: stype / coo_build only concern sparse results
                 raise Violation("dense-with-sparse-option", entry="kron", msg=str(e)[:80])
             raise
+        except NotImplementedError:
+            if own is not None and bsr_possible(["dense" if f == "ndarray" else f for f in fm]):
+                raise Violation("format-unsupported", entry="ownership-slice-bsr", kind="formats")
+            raise
     if sp.issparse(X) != any_sparse:
         raise Violation("container", got=type(X).__name__, **info)
     if any_sparse and kw.get("stype") and X.format != kw["stype"]:
@@ -297,15 +324,18 @@ def s_ikron(draw, tier):
         a = draw(st.integers(0, n - 1))
         b = draw(st.integers(a + 1, n))
         inds = draw(st.permutations(list(range(a, b))))
+        if b - a >= 2 and prod(dims[a:b]) == 1:
+            # a 1x1 operator on several 1-dimensional sites reads equally as "one copy per site": not an overlay
+            dims[draw(st.integers(a, b - 1))] = 2
         ops = [op(prod(dims[a:b]))]
         inds = list(inds)
     elif mode == "int":
         inds = draw(st.integers(0, n - 1))
         ops = [op(dims[inds])]
     else:
-        m = draw(st.integers(1, n))
+        m = s_size(draw, n)
         inds = list(draw(st.permutations(list(range(n))))[:m])
-        k = draw(st.integers(1, m))
+        k = draw(st.sampled_from([1] + list(range(2, m + 1)) * 2))
         sizes = [draw(st.sampled_from([1, 2, 2, 3, 4])) for _ in range(k)]
         if mode == "auto":
             for i in inds:
@@ -381,6 +411,12 @@ def run_ikron(case):
         if not result_sparse and ("stype" in kw or "coo_build" in kw):
             raise Violation("dense-with-sparse-option", entry="ikron", msg=str(e)[:80])
         raise
+    except NotImplementedError:
+        eff = case["sparse"] if case["sparse"] is not None else any_sparse
+        ff = ["dense" if o["fmt"] == "ndarray" else o["fmt"] for o in specs] + ((["csr"] if eff else ["dense"]) if has_identity else [])
+        if own is not None and bsr_possible(ff):
+            raise Violation("format-unsupported", entry="ownership-slice-bsr", kind="ikron")
+        raise
     if case["sparse"] is True and not sp.issparse(X):
         raise Violation("sparse-option-ignored", entry="ikron", has_identity=has_identity, sparse_in=any_sparse)
     if case["sparse"] is not True and sp.issparse(X) != result_sparse:
@@ -406,14 +442,16 @@ def s_ikron_coords(draw, tier):
     shape = [draw(st.integers(1, 3)) for _ in range(nd)]
     while prod(shape) > 6:
         shape[max(range(nd), key=lambda q: shape[q])] -= 1
+    if prod(shape) < 3 and draw(st.integers(0, 4)) > 0:
+        shape[draw(st.integers(0, nd - 1))] = 3  # mostly at least three subsystems
     nsys = prod(shape)
     dims = []
     for _ in range(nsys):
         ok = [v for v in (1, 2, 2, 3) if prod(dims) * v <= 729]
         dims.append(draw(st.sampled_from(ok)))
-    m = draw(st.integers(1, min(nsys, 4)))
+    m = s_size(draw, min(nsys, 4))
     flat = list(draw(st.permutations(list(range(nsys))))[:m])
-    k = draw(st.integers(1, m))
+    k = draw(st.sampled_from([1] + list(range(2, m + 1)) * 2))
     sizes = [draw(st.sampled_from([1, 2, 2, 3])) for _ in range(k)]
     for i, ind in enumerate(flat):
         dims[ind] = sizes[i % k]
@@ -441,7 +479,14 @@ def run_ikron_coords(case):
         own = own_from(*case["own"], ref.shape[0])
         kw["ownership"] = own
         ref = ref[own[0]:own[1]]
-    X = qu.ikron(ops, dims_arg, [tuple(c) for c in case["coords"]], **kw)
+    try:
+        X = qu.ikron(ops, dims_arg, [tuple(c) for c in case["coords"]], **kw)
+    except NotImplementedError:
+        fmts = ["dense" if o["fmt"] == "ndarray" else o["fmt"] for o in case["ops"]]
+        anys = any(is_sparse_fmt(f) for f in fmts)
+        if kw and bsr_possible(fmts + (["csr" if anys else "dense"] if len(at) < len(dims) else [])):
+            raise Violation("format-unsupported", entry="ownership-slice-bsr", kind="ikron")
+        raise
     e = check_close(X, ref, EXACT64, mag, nd=len(shape))
     return {"nt": len(dims) >= 3 and unsorted(case["flat"]) and mixed(dims),
             "cls": ["nd=%d" % len(shape), "array" if case["as_array"] else "nested", "nops=%d" % len(ops)] +
@@ -456,14 +501,14 @@ def run_ikron_coords(case):
 def s_pkron(draw, tier):
     dims = draw(s_dims(max_n=5, need_nontrivial=True))
     n = len(dims)
-    m = draw(st.integers(1, n))
+    m = s_size(draw, n)
     inds = list(draw(st.permutations(list(range(n))))[:m])
     fmt = draw(s_fmt)
     sparse = draw(st.sampled_from([None, None, True]))
     will_sparse = is_sparse_fmt(fmt) or sparse is True
     allow = will_sparse or draw(st.integers(0, 9)) == 0
     return {"dims": dims, "inds": inds, "fmt": fmt, "kind": draw(s_kind), "seed": draw(A.seeds), "dtype": draw(s_dtype),
-            "sparse": sparse, "stype": draw(st.sampled_from([None, None, None] + list(FMTS))) if allow else None,
+            "sparse": sparse, "stype": draw(st.sampled_from([None] * 6 + ["csr"] + list(FMTS))) if allow else None,
             "coo_build": draw(st.booleans()) if allow else False, "inds_as": draw(st.sampled_from(["list", "tuple", "array"]))}
 
 
@@ -516,7 +561,7 @@ def s_permute(draw, tier):
     n = len(dims)
     perm = list(draw(st.permutations(list(range(n)))))
     what = draw(st.sampled_from(["op", "op", "ket", "ket", "product_op", "product_ket", "embedded", "bra"]))
-    m = draw(st.integers(1, n))
+    m = s_size(draw, n)
     return {"dims": dims, "perm": perm, "what": what, "fmt": draw(s_fmt), "kind": draw(s_kind), "seed": draw(A.seeds),
             "dtype": draw(s_dtype), "inds": list(draw(st.permutations(list(range(n))))[:m]),
             "args_as": draw(st.sampled_from(["list", "tuple", "array"]))}
@@ -612,25 +657,29 @@ def make_state(case, D):
 
 @st.composite
 def s_ptr(draw, tier, sparse):
-    cap = 48 if sparse else 1024
+    cap = 64 if sparse else 1024
     nd = draw(st.sampled_from([1, 1, 1, 2, 3]))
     if nd == 1:
-        dims = draw(s_dims(max_n=5, cap=cap, need_nontrivial=True))
+        dims = draw(s_dims(max_n=5, cap=cap, need_nontrivial=True, vals=(1, 2, 2, 2, 3, 3, 4) if sparse else (1, 2, 2, 3, 3, 4)))
         shape = [len(dims)]
     else:
         shape = [draw(st.integers(1, 3)) for _ in range(nd)]
         while prod(shape) > 5:
             shape[max(range(nd), key=lambda q: shape[q])] -= 1
-        dims = draw(s_dims(min_n=prod(shape), max_n=prod(shape), cap=cap, vals=(1, 2, 2, 3), need_nontrivial=True))
+        dims = []
+        for _ in range(prod(shape)):
+            dims.append(draw(st.sampled_from([v for v in (1, 2, 2, 2, 3) if prod(dims) * v <= cap] or [1])))
+        if prod(dims) == 1:
+            dims[-1] = 2
     n = len(dims)
-    m = draw(st.integers(1, n))
+    m = s_size(draw, n)
     keep = list(draw(st.permutations(list(range(n))))[:m])
     if draw(st.booleans()):
         keep = sorted(keep)
     return {"dims": dims, "shape": shape, "keep": keep, "seed": draw(A.seeds), "aseed": draw(A.seeds),
             "what": draw(st.sampled_from(["ket", "ket", "rho", "rho", "rho_lowrank", "herm", "diag", "ket_sparse"])),
             "dtype": draw(s_dtype64) if sparse else draw(st.sampled_from(["float64", "complex128", "complex128", "complex64"])),
-            "fmt": draw(s_sfmt) if sparse else draw(st.sampled_from(["dense", "ndarray"])),
+            "fmt": draw(st.sampled_from(["csr", "csr", "csc", "csc", "coo", "bsr"])) if sparse else draw(st.sampled_from(["dense", "ndarray"])),
             "keep_int": m == 1 and draw(st.booleans()), "dims_as": draw(st.sampled_from(["list", "tuple", "array"])),
             "via": draw(st.sampled_from(["ptr", "partial_trace", "method"]))}
 
@@ -660,22 +709,24 @@ def run_ptr(case):
     via = case["via"]
     if via == "method" and (nd != 1 or case["fmt"] == "ndarray"):
         via = "ptr"
-    try:
-        if via == "method":
-            # sparse matrices get `.ptr` patched on; qarray has it natively
-            R = p.ptr(dims_arg, keep_arg)
-        elif via == "ptr":
-            R = qu.ptr(p, dims_arg, keep_arg)
-        else:
-            R = qu.partial_trace(p, dims_arg, keep_arg)
-    except (TypeError, NotImplementedError) as e:
-        if sparse_in and case["fmt"] in ("coo", "bsr"):
-            # the statement promises every sparse format; quimb itself patches .ptr onto coo and bsr matrices
-            raise Violation("format-unsupported", entry="ptr", sliceable=False, fmt=case["fmt"], exc=type(e).__name__)
-        raise
+    def do_ptr(obj, how):
+        try:
+            if how == "method":
+                # sparse matrices get `.ptr` patched on; qarray has it natively
+                return obj.ptr(dims_arg, keep_arg)
+            if how == "ptr":
+                return qu.ptr(obj, dims_arg, keep_arg)
+            return qu.partial_trace(obj, dims_arg, keep_arg)
+        except (TypeError, NotImplementedError) as e:
+            if sparse_in and case["fmt"] in ("coo", "bsr"):
+                # the statement promises every sparse format; quimb itself patches .ptr onto coo and bsr matrices
+                raise Violation("format-unsupported", entry="ptr", sliceable=False, fmt=case["fmt"], exc=type(e).__name__)
+            raise
+
+    R = do_ptr(p, via)
     Rd = dense(R)
     if Rd.shape != ref.shape:
-        raise Violation("shape", entry="ptr", got=list(Rd.shape), want=list(ref.shape), kept_dim=kept_dim, **info)
+        raise Violation("shape", entry="ptr", got=list(Rd.shape), want=list(ref.shape), kept_dim=kept_dim, has1=1 in dims, **info)
     e = check_close(Rd, ref, tol, mag, entry="ptr", **info)
     # adjointness: Tr[embed(A) rho] == Tr[A ptr(rho)], with quimb's own embedding and the reference one
     Aop = A.make_array(case["aseed"], "gauss", (kept_dim, kept_dim), "complex128")
@@ -693,7 +744,7 @@ def run_ptr(case):
         # a ket and its projector give the same reduced state
         proj = store(x @ x.conj().T, case["fmt"]) if D > 1 else None
         if proj is not None:
-            R2 = qu.ptr(proj, dims_arg, keep_arg)
+            R2 = do_ptr(proj, "ptr")
             e = max(e, check_close(R2, Rd, tol, mag, clause="ket-vs-projector", **info))
     return {"nt": n >= 3 and mixed(dims) and (unsorted(keep) or ks != list(range(ks[0], ks[0] + len(ks)))),
             "cls": ["what=" + case["what"], "fmt=" + case["fmt"], "nd=%d" % nd, "n=%d" % n, "via=" + via] +
@@ -755,7 +806,7 @@ def run_itrace(case):
 def s_ptranspose(draw, tier):
     dims = draw(s_dims(min_n=1, max_n=5, need_nontrivial=True))
     n = len(dims)
-    m = draw(st.integers(0, n))
+    m = s_size(draw, n, empty=True)
     sysa = list(draw(st.permutations(list(range(n))))[:m])
     return {"dims": dims, "sysa": sysa, "what": draw(st.sampled_from(["op", "op", "rho", "ket"])), "seed": draw(A.seeds),
             "dtype": draw(st.sampled_from(["float64", "complex128", "complex128", "complex64"])),
@@ -907,14 +958,18 @@ def run_dim_compress(case):
     n = len(dims)
     D = prod(dims)
     cells = nt = 0
+    zero_dim = []
     for m in range(0, n + 1):
         for inds in itertools.combinations(range(n), m):
             for spell in ((inds,) if m != 1 else (inds, inds[0])):
                 cd, ci = qu.dim_compress(tuple(dims), spell)
                 cd, ci = [int(d) for d in cd], [int(i) for i in ci]
-                info = dict(dims=dims, inds=list(inds), got_dims=cd, got_inds=ci, all_ones=D == 1)
+                info = dict(dims=dims, inds=list(inds), got_dims=cd, got_inds=ci, has1=1 in dims)
+                if 0 in cd and 1 in dims:
+                    zero_dim.append(info)  # one class; reported once per chunk after the other cells were checked
+                    continue
                 if prod(cd) != D or any(d < 1 for d in cd):
-                    raise Violation("compress-size", **info)
+                    raise Violation("compress-size", zero_dim=False, **info)
                 if any(not 0 <= i < len(cd) for i in ci) or len(set(ci)) != len(ci):
                     raise Violation("compress-inds", **info)
                 for x in range(D):
@@ -928,6 +983,8 @@ def run_dim_compress(case):
                 cells += 1
                 if n >= 3 and mixed(dims) and 0 < m < n:
                     nt += 1
+    if zero_dim:
+        raise Violation("compress-size", zero_dim=True, **zero_dim[0])
     return {"nt": nt > 0, "n": cells, "nt_n": nt, "cls": ["n=%d" % n] + (["has1"] if 1 in dims else []), "err": 0.0}
 
 
@@ -1195,37 +1252,37 @@ SUBCHECKS = [
              rule="EXHAUSTIVE: all dims in {1,2,3}^(1..4) (d x c blocks, c in 1..3) x {dense,csr,coo,csc,bsr,mixed} x every 0<=ri<rf<=D: "
                   "kron(*ops, ownership=(ri,rf)) is bitwise kron(*ops)[ri:rf] and kron(*ops)==np.kron chain to 1e-14; nt cell: proper "
                   "sub-range with >=2 non-trivial factors"),
-    SubCheck("kron_formats", run_kron_formats, s_kron_formats, examples=(350, 5000), shards=(1, 4),
+    SubCheck("kron_formats", run_kron_formats, s_kron_formats, examples=(600, 6000), shards=(1, 4),
              rule="kron / kronpow / & of 1-5 kets, bras, square and rectangular blocks in dense/ndarray/csr/csc/coo/bsr, 4 dtypes, "
                   "options stype, coo_build, parallel, ownership vs np.kron; output container and stype checked; nt: >=3 factors of "
                   ">=2 shapes with a sparse factor or an ownership range"),
-    SubCheck("ikron_embed", run_ikron, s_ikron, examples=(400, 6000), shards=(2, 4),
+    SubCheck("ikron_embed", run_ikron, s_ikron, examples=(500, 6000), shards=(2, 6),
              rule="ikron: one op per listed subsystem in any order (cyclic assignment), one op on several sites, overlay on a "
                   "contiguous block, -1 auto-sized slots, bare int index; options sparse/stype/coo_build/parallel/ownership vs "
                   "np.kron with identities; nt: >=3 subsystems, mixed dims, non-sorted inds (or overlay)"),
-    SubCheck("ikron_coords", run_ikron_coords, s_ikron_coords, examples=(200, 3000), shards=(1, 2),
+    SubCheck("ikron_coords", run_ikron_coords, s_ikron_coords, examples=(300, 4000), shards=(1, 3),
              rule="ikron with 2-D/3-D nested dims (list or ndarray) and coordinate tuples vs np.kron on the raveled lattice; nt: >=3 "
                   "subsystems, mixed dims, non-sorted coordinates"),
-    SubCheck("pkron", run_pkron, s_pkron, examples=(350, 5000), shards=(1, 4),
+    SubCheck("pkron", run_pkron, s_pkron, examples=(600, 6000), shards=(1, 4),
              rule="pkron(op, dims, inds) for ordered subsets vs explicit kron-with-identity + axis permutation; dense and 4 sparse "
                   "formats, sparse/stype/coo_build options; nt: >=3 subsystems, mixed dims, non-sorted inds"),
-    SubCheck("permute", run_permute, s_permute, examples=(400, 6000), shards=(1, 4),
+    SubCheck("permute", run_permute, s_permute, examples=(600, 6000), shards=(1, 4),
              rule="permute of kets, operators (reshape-transpose reference), product kets/operators (== product in new order), "
                   "embedded operators (== quimb's and numpy's embedding on the permuted subsystems), bras; dense + 4 sparse "
                   "formats; nt: >=3 subsystems, mixed dims, perm not an involution"),
-    SubCheck("ptr_dense", run_ptr, lambda tier: s_ptr(tier, False), examples=(350, 5000), shards=(1, 4),
+    SubCheck("ptr_dense", run_ptr, lambda tier: s_ptr(tier, False), examples=(600, 6000), shards=(1, 4),
              rule="dense partial_trace/ptr/.ptr of kets, density operators (full, low rank, diagonal), Hermitian operators, 1-D to "
                   "3-D dims with coordinates: == einsum reference, Tr[embed(A) rho]==Tr[A ptr(rho)] with numpy and pkron embedding, "
                   "ket == projector; nt: >=3 subsystems, mixed dims, keep unsorted or non-contiguous"),
-    SubCheck("ptr_sparse", run_ptr, lambda tier: s_ptr(tier, True), examples=(250, 3500), shards=(2, 4),
-             rule="same as ptr_dense for csr/csc/coo/bsr inputs (D<=48): every format must be served and equal the dense reference"),
-    SubCheck("itrace", run_itrace, s_itrace, examples=(250, 3000), shards=(1, 2),
+    SubCheck("ptr_sparse", run_ptr, lambda tier: s_ptr(tier, True), examples=(400, 4000), shards=(2, 8),
+             rule="same as ptr_dense for csr/csc/coo/bsr inputs (D<=64): every format must be served and equal the dense reference"),
+    SubCheck("itrace", run_itrace, s_itrace, examples=(300, 4000), shards=(1, 2),
              rule="itrace over 1-3 axis pairs anywhere in a rank<=9 array (int pair / tuples / lists) vs np.einsum; nt: >=2 pairs, "
                   "interleaved or unsorted axes"),
-    SubCheck("partial_transpose", run_ptranspose, s_ptranspose, examples=(250, 3000), shards=(1, 2),
+    SubCheck("partial_transpose", run_ptranspose, s_ptranspose, examples=(400, 4000), shards=(1, 3),
              rule="partial_transpose of operators, density operators and kets vs per-subsystem index swap; involution; complement "
                   "gives the full transpose; nt: >=3 subsystems, mixed dims, proper unsorted/non-contiguous sysa"),
-    SubCheck("dim_map", run_dim_map, s_dim_map, examples=(500, 6000), shards=(1, 2),
+    SubCheck("dim_map", run_dim_map, s_dim_map, examples=(600, 6000), shards=(1, 3),
              rule="dim_map for 1-4 dimensional dims (nested / ndarray) and coordinates in and out of range x cyclic x trim vs "
                   "np.ravel_multi_index after explicit wrap/drop; out-of-range without a flag must raise ValueError; nt: >=2-D "
                   "with a wrapped/trimmed coordinate or anisotropic shape"),
